@@ -94,6 +94,9 @@ void harness(void) {
 #include "types_base.c"
 #include "env/ghost_vrule.h"
 #include "contracts/hashchain_c01wrap.h"           /* contracts of the cores (projections of C03) + env/ghost_c01wrap.h */
+#ifdef H_wrap_list
+#define VR_C01_LISTAGG_AUDIT_FRAME , g_cw_aud_aggfail   /* vacuity-guard ghost of the audit (builderY): frame only, no clause speaks about it */
+#endif
 #include "contracts/verification_rule_c01.h"       /* the contract text the rule jobs assume - unchanged */
 #include "hashchain.c"
 typedef char cw_new2_is_slot_8[VR_H_NEW2 == 8 ? 1 : -1];      /* the loop-contract JSON says g_vr_h_ref[8] */
@@ -151,6 +154,7 @@ void harness(void) {
 	KSI_AggregationHashChainList *list; KSI_CTX *ctx; int level, res;
 	vr_world_init();
 	cw_list_init();
+	g_cw_aud_aggfail = 0;
 	__CPROVER_assume(0 <= g_cw_lvlP && g_cw_lvlP <= 0xff);        /* root levels are within 0..0xff (C03.memo / C03.aggr postcondition) */
 	g_vr_temp.aggregationOutputHash = NULL;                       /* call-site precondition (first requires of the enforced contract) */
 	list = VR_OPT(&g_cw_chainlist); ctx = VR_OPT(VR_CTX); level = nondet_int();
@@ -163,5 +167,8 @@ void harness(void) {
 	if (res != KSI_OK && list != NULL && ctx != NULL && level >= 0 && level <= 0xff) REACH("a chain or the list failed");
 	if (res == KSI_INVALID_ARGUMENT && (level < 0 || level > 0xff)) REACH("level refused");
 	if (res != KSI_OK && list == NULL) REACH("no list");
+	/* (audit builderY, dfcc __invalid_ptr sharing) failure of the replaced KSI_AggregationHashChain_aggregate at the first / at a later loop iteration */
+	if (res != KSI_OK && g_cw_aud_aggfail == 1) REACH("the aggregation of the first chain fails");
+	if (res != KSI_OK && g_cw_aud_aggfail == 2) REACH("the aggregation of a later chain fails");
 }
 #endif
